@@ -6,7 +6,7 @@ import re
 
 from .. import anchors as A
 from ..consteval import module_const, try_fold
-from ..model import AnalysisError, FuncInfo, Project, walk_local, call_name
+from ..model import local_values, AnalysisError, FuncInfo, Project, walk_local, call_name
 from ..paths import PathAnalysis, PState, norm_lit, run_paths, subst_text
 from ..report import Report
 
@@ -247,6 +247,47 @@ def check(P: Project, R: Report) -> None:
              sample=f"R3 {proc.qual}: error present ∧ {chosen} -> raise {short}({', '.join(args)[:120]})")
         msg_arg = kw.get("message") or (subst_text(call.args[0], st) if call.args else "")
         ok_msg = ".get('message'" in an.origin(msg_arg)
+        if not ok_msg and any(an.origin(l_).replace("<", "").replace(">", "").endswith(".get('message') is None") for l_ in st.lits):
+            ok_msg = True  # the server sent no message: the standard text for the code stands in for it
+        if not ok_msg:
+            # the text may be put together in a mapping that is filled in step by step (`fields["description"] = …`, then
+            # `LAYOUT % fields`): what is stored into a mapping the message is built from is part of the message
+            reach, todo = set(), [msg_arg]
+            while todo:
+                t_ = todo.pop()
+                for k_ in an.defs:
+                    if k_ in t_ and k_ not in reach:
+                        reach.add(k_)
+                        todo.append(an.defs[k_][0])
+            for s_ in walk_local(proc.node):
+                if isinstance(s_, ast.Assign) and len(s_.targets) == 1 and isinstance(s_.targets[0], ast.Subscript) and isinstance(s_.targets[0].value, ast.Name):
+                    tb_ = st.term(s_.targets[0].value.id)
+                    if tb_ in reach and ".get('message'" in an.origin(subst_text(s_.value, st)):
+                        ok_msg = True
+        # … as data: the server's text is never the template of a formatting operation
+        lvp_ = local_values(proc.node)
+
+        def _from_server_message(e_, depth=0) -> bool:
+            if depth > 4:
+                return False
+            if ".get('message'" in ast.unparse(e_) or "['message']" in ast.unparse(e_):
+                return True
+            for x_ in ast.walk(e_):
+                if isinstance(x_, ast.Name):
+                    for v_ in lvp_.get(x_.id, []) or []:
+                        if v_ is not None and v_ is not e_ and _from_server_message(v_, depth + 1):
+                            return True
+            return False
+
+        for n_ in walk_local(proc.node):
+            tmpl = None
+            if isinstance(n_, ast.BinOp) and isinstance(n_.op, ast.Mod) and not isinstance(n_.left, ast.Constant):
+                tmpl = n_.left
+            elif isinstance(n_, ast.Call) and isinstance(n_.func, ast.Attribute) and n_.func.attr in ("format", "format_map") and not isinstance(n_.func.value, ast.Constant):
+                tmpl = n_.func.value
+            if tmpl is not None and _from_server_message(tmpl):
+                R.ob("R3", key + " carries the server's message as it was sent", False, f"{proc.module.rel}:{n_.lineno}",
+                     f"`{ast.unparse(n_)[:70]}` uses text that comes from the server's `message` as a format template: a message containing a percent sign or braces (a percent-encoded URI, `100% used`) raises ValueError/TypeError/KeyError out of the response processor — neither documented class — or is silently rewritten")
         R.ob("R3", key + " carries the server's message", ok_msg, f"{proc.module.rel}:{node.lineno}", f"message argument `{an.origin(msg_arg)[:120]}` does not derive from error['message']")
     R.ob("R3", "both classes raised", classes_seen == {"RetryableError", "NonRetryableError"}, proc.where, f"classes raised on the error branch: {sorted(classes_seen)}")
     # the exception classes: whatever constructor chain each of the two classes resolves to must (a) store .code from the
